@@ -488,7 +488,12 @@ impl Printer {
                     Layout::Tight => {
                         let a = prev.chars().last().unwrap_or(' ');
                         let b = t.s.chars().next().unwrap_or(' ');
-                        if (wordy(a) && wordy(b)) || (opchar(a) && opchar(b)) || (a.is_ascii_digit() && b == '.') || (a == '.' && b.is_ascii_digit()) {
+                        // digits `.` digits would read as a float: a space is needed only there
+                        // (`a.0.f` and `#(1, 2).0` are written tight, as people write them)
+                        let prev_all_digits = !prev.is_empty() && prev.chars().all(|c| c.is_ascii_digit() || c == '_');
+                        let next_starts_digit = self.toks.get(i + 1).map_or(false, |n| n.s.chars().next().map_or(false, |c| c.is_ascii_digit()));
+                        let before_prev_is_digits = i >= 2 && self.toks[i - 2].s.chars().all(|c| c.is_ascii_digit() || c == '_') && !self.toks[i - 2].s.is_empty();
+                        if (wordy(a) && wordy(b)) || (opchar(a) && opchar(b)) || (prev_all_digits && t.s == "." && next_starts_digit) || (prev == "." && b.is_ascii_digit() && before_prev_is_digits) {
                             text.push(' ');
                         }
                     }
